@@ -734,29 +734,163 @@ example : startupRefuses (lit "site") [lit "site.warc.gz", lit "other.warc-wpull
 
 
 
-/-! ## The class of the I/O error does not matter -/
+/-! ## The class of the exception does not matter -/
 
-/-- `except (OSError, IOError)` catches every class of I/O error: `write_record` under errors of class
-`e` is `write_record`, whatever `e` is (ENOSPC, EIO, EACCES, EPERM, ENOENT, EINTR, EAGAIN, ETIMEDOUT, IOError). -/
-theorem writeRecordE_eq (e : IOErr) (fs : FS) (s : Sched) : writeRecordE e fs s = writeRecord fs s := by
-  unfold writeRecordE writeRecord appendAndFinishE appendAndFinish
+theorem appendAndFinishE_eq (e : IOErr) (fs : FS) (n : Nat) (s : Sched) :
+    appendAndFinishE e fs n s = appendAndFinish fs n s := by
+  unfold appendAndFinishE appendAndFinish
   simp [handlerCatches]
 
-/-- … so two runs that differ only in the class of the errors end in the same state, trace and status -/
-theorem error_class_irrelevant (e₁ e₂ : IOErr) (fs : FS) (s : Sched) :
-    writeRecordE e₁ fs s = writeRecordE e₂ fs s := by
-  rw [writeRecordE_eq, writeRecordE_eq]
+/-- every class of I/O error (ENOSPC, EIO, EACCES, EPERM, ENOENT, EINTR, EAGAIN, ETIMEDOUT, IOError) is
+handled alike by both handlers of `write_record` -/
+theorem writeRecordE_eq (e : IOErr) (h : e.isOSError = true) (fs : FS) (s : Sched) :
+    writeRecordE e fs s = writeRecord fs s := by
+  unfold writeRecordE writeRecord journalPhaseE
+  simp [appendAndFinishE_eq, h]
 
-/-- **fault_restores for every error class**: PermissionError / FileNotFoundError / … at ANY primitive
-(open, any write after any prefix, flush, close) are rolled back exactly like ENOSPC. -/
-theorem fault_restores_any_class (e : IOErr) (fs : FS) (s : Sched) (hj : fs.journal = none)
-    (hraised : (writeRecordE e fs s).status = .raised)
+/-- … so two runs that differ only in the class of the I/O errors end in the same state, trace and status -/
+theorem error_class_irrelevant (e₁ e₂ : IOErr) (h₁ : e₁.isOSError = true) (h₂ : e₂.isOSError = true)
+    (fs : FS) (s : Sched) : writeRecordE e₁ fs s = writeRecordE e₂ fs s := by
+  rw [writeRecordE_eq e₁ h₁, writeRecordE_eq e₂ h₂]
+
+/-- **fault_restores for every class of I/O error**: PermissionError / FileNotFoundError / … at ANY
+primitive (open, any write after any prefix, flush, close) are rolled back exactly like ENOSPC. -/
+theorem fault_restores_any_class (e : IOErr) (he : e.isOSError = true) (fs : FS) (s : Sched)
+    (hj : fs.journal = none) (hraised : (writeRecordE e fs s).status = .raised)
     (ho : s.ropen.isFail = false) (ht : s.rtrunc.isFail = false)
     (hu : s.unlink.isFail = false) (hju : s.junlink.isFail = false) :
     (writeRecordE e fs s).fs.bytes = fs.bytes ∧ (writeRecordE e fs s).fs.journal = none := by
-  rw [writeRecordE_eq] at hraised ⊢
+  rw [writeRecordE_eq e he] at hraised ⊢
   exact fault_restores fs s hj hraised ho ht hu hju
 
+/-! ### exceptions that are not I/O errors (KeyboardInterrupt, CancelledError, SystemExit, MemoryError, …)
+
+They differ from an I/O error in one place only: the `except (OSError, IOError)` around the journal
+creation does not catch them, so a journal whose creation they interrupt stays (the archive is untouched
+then).  As far as the file system and the status go, that is `write_record` under a schedule whose journal
+removal "fails". -/
+
+def Sched.noJunlink (s : Sched) : Sched := { s with junlink := .fail 0 }
+
+theorem journalPhase_noJunlink (fs : FS) (n : Nat) (s : Sched) :
+    (journalPhase fs n s.noJunlink).fs = (journalCreate fs n s).fs ∧
+    (journalPhase fs n s.noJunlink).st = (journalCreate fs n s).st := by
+  have hc : journalCreate fs n s.noJunlink = journalCreate fs n s := rfl
+  have hu : s.noJunlink.junlink = .fail 0 := rfl
+  unfold journalPhase
+  simp only [hc, hu]
+  cases hst : (journalCreate fs n s).st with
+  | none => simp [hst]
+  | some q =>
+    cases q with
+    | done => simp [hst]
+    | died => simp [hst]
+    | raised =>
+      simp only
+      cases hj : (journalCreate fs n s).fs.journal with
+      | none => simp [hst]
+      | some v => simp
+
+/-- the transfer: for every exception class there is a schedule with the same archive writes, record
+source, roll-back and final-removal outcomes under which plain `write_record` ends in the same file system
+and status -/
+theorem writeRecordE_transfer (e : IOErr) (fs : FS) (s : Sched) :
+    ∃ s' : Sched, s'.awrites = s.awrites ∧ s'.srcFail = s.srcFail ∧ s'.ropen = s.ropen ∧
+      s'.rtrunc = s.rtrunc ∧ s'.unlink = s.unlink ∧
+      (writeRecordE e fs s).fs = (writeRecord fs s').fs ∧ (writeRecordE e fs s).st = (writeRecord fs s').st := by
+  cases he : e.isOSError with
+  | true => exact ⟨s, rfl, rfl, rfl, rfl, rfl, by rw [writeRecordE_eq e he], by rw [writeRecordE_eq e he]⟩
+  | false =>
+    refine ⟨s.noJunlink, rfl, rfl, rfl, rfl, rfl, ?_⟩
+    obtain ⟨hf, hs⟩ := journalPhase_noJunlink fs fs.bytes.length s
+    have hg : s.noJunlink.getsize = s.getsize := rfl
+    have haf : ∀ x, appendAndFinish x fs.bytes.length s.noJunlink = appendAndFinish x fs.bytes.length s :=
+      fun _ => rfl
+    unfold writeRecordE writeRecord journalPhaseE
+    simp only [he, hg, appendAndFinishE_eq, haf, Bool.false_eq_true, if_false]
+    cases fs.archive with
+    | none =>
+      simp only
+      cases hq : (journalCreate fs fs.bytes.length s).st with
+      | some q => rw [hq] at hs; simp [hs, hf]
+      | none => rw [hq] at hs; simp [hs, hf]
+    | some a =>
+      simp only
+      cases s.getsize with
+      | ok =>
+        simp only
+        cases hq : (journalCreate fs fs.bytes.length s).st with
+        | some q => rw [hq] at hs; simp [hs, hf]
+        | none => rw [hq] at hs; simp [hs, hf]
+      | fail k => exact ⟨rfl, rfl⟩
+      | die k => exact ⟨rfl, rfl⟩
+
+/-- `fault_restores` for the bytes alone does not need the journal-creation clean-up to work -/
+theorem fault_restores_bytes (fs : FS) (s : Sched)
+    (hraised : (writeRecord fs s).st = some .raised)
+    (ho : s.ropen.isFail = false) (ht : s.rtrunc.isFail = false) (hu : s.unlink.isFail = false) :
+    (writeRecord fs s).fs.bytes = fs.bytes := by
+  rcases writeRecord_shape fs s with ⟨h, _⟩ | ⟨st, _, h, _⟩ | ⟨hn, h, hs⟩
+  · rw [h]
+  · rw [h]; simp [FS.bytes, journalPhase_archive]
+  · rw [h]
+    have hb : (journalPhase fs fs.bytes.length s).fs.bytes = fs.bytes := by
+      simp [FS.bytes, journalPhase_archive]
+    obtain ⟨_, _, _, h4, _⟩ := appendAndFinish_spec _ fs.bytes s hb (journalPhase_none hn)
+    exact (h4 (by rw [← hs]; exact hraised) ho ht hu).1
+
+/-- **An interrupted append is rolled back, whatever interrupts it**: for EVERY exception class -- I/O
+error or KeyboardInterrupt, CancelledError, SystemExit, MemoryError, an error of the record source -- and
+every schedule whose undo primitives (roll-back open/truncate, final journal removal) do not fail: once the
+exception has come out of `write_record`, the archive holds exactly the bytes it held before. -/
+theorem interrupted_append_restores (e : IOErr) (fs : FS) (s : Sched)
+    (hraised : (writeRecordE e fs s).st = some .raised)
+    (ho : s.ropen.isFail = false) (ht : s.rtrunc.isFail = false) (hu : s.unlink.isFail = false) :
+    (writeRecordE e fs s).fs.bytes = fs.bytes := by
+  obtain ⟨s', _, _, h3, h4, h5, hf, hs⟩ := writeRecordE_transfer e fs s
+  rw [hf]
+  exact fault_restores_bytes fs s' (by rw [← hs]; exact hraised) (by rw [h3]; exact ho) (by rw [h4]; exact ht)
+    (by rw [h5]; exact hu)
+
+/-- … and in every case (returned, raised, killed; any exception class) the state is recoverable -/
+theorem always_recoverable_any_exception (e : IOErr) (fs : FS) (s : Sched)
+    (ho : s.ropen.isFail = false) (ht : s.rtrunc.isFail = false) :
+    fs.bytes = (writeRecordE e fs s).fs.bytes ∨
+    ((∀ p ∈ s.awrites, p.2 = Out.ok) ∧ s.srcFail = false ∧ (writeRecordE e fs s).fs.bytes = fs.bytes ++ full s) ∨
+    ((writeRecordE e fs s).fs.journal = some (journalText fs.bytes.length) ∧
+      ((writeRecordE e fs s).fs.bytes).take fs.bytes.length = fs.bytes) := by
+  obtain ⟨s', h1, h2, h3, h4, _, hf, _⟩ := writeRecordE_transfer e fs s
+  have := always_recoverable fs s' (by rw [h3]; exact ho) (by rw [h4]; exact ht)
+  rw [hf]
+  rcases this with h | ⟨⟨hc1, hc2⟩, h⟩ | h
+  · exact Or.inl h.symm
+  · exact Or.inr (Or.inl ⟨by rw [← h1]; exact hc1, by rw [← h2]; exact hc2, by simpa [full, h1] using h⟩)
+  · exact Or.inr (Or.inr h)
+
+/-- killed at any primitive under any exception class: `crash_recoverable` as it stands -/
+theorem crash_recoverable_any_exception (V : Bytes → Prop) (e : IOErr) (fs : FS) (s : Sched)
+    (hdied : (writeRecordE e fs s).st = some .died) (hV0 : V fs.bytes) :
+    V (writeRecordE e fs s).fs.bytes ∨
+    (∃ j, (writeRecordE e fs s).fs.journal = some j ∧ journalOffset? j = some fs.bytes.length ∧
+      ((writeRecordE e fs s).fs.bytes).take fs.bytes.length = fs.bytes ∧
+      V (((writeRecordE e fs s).fs.bytes).take fs.bytes.length)) := by
+  obtain ⟨s', _, _, _, _, _, hf, hs⟩ := writeRecordE_transfer e fs s
+  rw [hf]
+  exact crash_recoverable V fs s' (by rw [← hs]; exact hdied) hV0
+
+theorem journal_before_archive_open_any_exception (e : IOErr) (fs : FS) (s : Sched)
+    (hdied : (writeRecordE e fs s).st = some .died)
+    (hchg : (writeRecordE e fs s).fs.archive ≠ fs.archive) :
+    (writeRecordE e fs s).fs.journal = some (journalText fs.bytes.length) := by
+  obtain ⟨s', _, _, _, _, _, hf, hs⟩ := writeRecordE_transfer e fs s
+  rw [hf] at hchg ⊢
+  exact journal_before_archive_open fs s' (by rw [← hs]; exact hdied) hchg
+
+-- non-vacuity: KeyboardInterrupt in a write after 1 byte: rolled back; in the journal write: journal stays, archive untouched
+example : (writeRecordE .keyboardInterrupt ⟨some [1, 2, 3], none⟩ { awrites := [([4, 5], .fail 1)] }).fs
+    = ⟨some [1, 2, 3], none⟩ := by decide
+example : (writeRecordE .memoryError ⟨some [1, 2, 3], none⟩ { jwrite := .fail 2, jretry := .fail 0 }).fs
+    = ⟨some [1, 2, 3], some ((journalText 3).take 2)⟩ := by decide
 -- non-vacuity: EACCES from a write after 1 byte is on disk
 example : (writeRecordE .eacces ⟨some [1, 2, 3], none⟩ { awrites := [([4, 5], .fail 1)] }).fs
     = ⟨some [1, 2, 3], none⟩ := by decide
@@ -798,13 +932,14 @@ theorem idle_eq (fs : FS) (t : Nat) : idle fs t = fs := by
 
 /-- **fault_restores, observed late**: at every later time `t` (no further operation), after errors of any
 class `e`: the archive holds the bytes it held before the attempt and there is no journal. -/
-theorem fault_restores_at_every_later_time (e : IOErr) (fs : FS) (s : Sched) (t : Nat) (hj : fs.journal = none)
+theorem fault_restores_at_every_later_time (e : IOErr) (he : e.isOSError = true) (fs : FS) (s : Sched) (t : Nat)
+    (hj : fs.journal = none)
     (hraised : (writeRecordE e fs s).status = .raised)
     (ho : s.ropen.isFail = false) (ht : s.rtrunc.isFail = false)
     (hu : s.unlink.isFail = false) (hju : s.junlink.isFail = false) :
     (idle (writeRecordE e fs s).fs t).bytes = fs.bytes ∧ (idle (writeRecordE e fs s).fs t).journal = none := by
   rw [idle_eq]
-  exact fault_restores_any_class e fs s hj hraised ho ht hu hju
+  exact fault_restores_any_class e he fs s hj hraised ho ht hu hju
 
 example : ∃ t, (Prim.aclose, t) ∈ (appendPhase ⟨some [1], some []⟩ { awrites := [([2, 3], .fail 1)] }).tr :=
   ⟨.ok, by decide⟩
@@ -819,18 +954,18 @@ theorem journalOf_ne (a : Str) : journalOf a ≠ a := by
   have := congrArg List.length h
   simp [journalOf, journalSuffix, lit] at this
 
-theorem appendTo_archive (m : Dir) (a : Str) (s : Sched) :
-    (appendTo m a s).dir a = (writeRecord ⟨m a, m (journalOf a)⟩ s).fs.archive := by
+theorem appendTo_archive (m : Dir) (a : Str) (s : Sched) (e : IOErr) :
+    (appendTo m a s e).dir a = (writeRecordE e ⟨m a, m (journalOf a)⟩ s).fs.archive := by
   have h : a ≠ journalOf a := fun h => journalOf_ne a h.symm
   simp [appendTo, Dir.set, h]
 
-theorem appendTo_journal (m : Dir) (a : Str) (s : Sched) :
-    (appendTo m a s).dir (journalOf a) = (writeRecord ⟨m a, m (journalOf a)⟩ s).fs.journal := by
+theorem appendTo_journal (m : Dir) (a : Str) (s : Sched) (e : IOErr) :
+    (appendTo m a s e).dir (journalOf a) = (writeRecordE e ⟨m a, m (journalOf a)⟩ s).fs.journal := by
   simp [appendTo, Dir.set]
 
 /-- an append leaves every file other than its archive and that archive's journal alone -/
-theorem appendTo_frame (m : Dir) (a : Str) (s : Sched) (x : Str) (h1 : x ≠ a) (h2 : x ≠ journalOf a) :
-    (appendTo m a s).dir x = m x := by
+theorem appendTo_frame (m : Dir) (a : Str) (s : Sched) (e : IOErr) (x : Str) (h1 : x ≠ a) (h2 : x ≠ journalOf a) :
+    (appendTo m a s e).dir x = m x := by
   simp [appendTo, Dir.set, h1, h2]
 
 def Prim.onJournal : Prim → Bool
@@ -841,8 +976,8 @@ def Prim.onJournal : Prim → Bool
 (`<prefix>.warc[.gz]`, `<prefix>-NNNNN.warc[.gz]`, `<prefix>-meta.warc[.gz]`: `seq` is arbitrary):
 in an append to `warcName p seq c`, under every schedule, every journal primitive (create, write, close,
 remove) acts on `warcName p seq c ++ "-wpullinc"` and every other primitive on the archive itself. -/
-theorem journal_next_to_archive (m : Dir) (p seq : Str) (c : Bool) (s : Sched) :
-    ∀ e ∈ (appendTo m (warcName p seq c) s).tr,
+theorem journal_next_to_archive (m : Dir) (p seq : Str) (c : Bool) (s : Sched) (err : IOErr) :
+    ∀ e ∈ (appendTo m (warcName p seq c) s err).tr,
       (e.2.1.onJournal = true → e.1 = journalName p seq c ∧ e.1 = warcName p seq c ++ lit "-wpullinc") ∧
       (e.2.1.onJournal = false → e.1 = warcName p seq c) := by
   intro e he
@@ -853,21 +988,21 @@ theorem journal_next_to_archive (m : Dir) (p seq : Str) (c : Bool) (s : Sched) :
 /-- crash_recoverable per archive of a directory: killed inside an append aimed at `a` (any schedule),
 `a` is valid as it is, or ITS OWN journal `a ++ "-wpullinc"` decodes to `a`'s pre-append length and `a`
 cut there is the old `a`; every other file is what it was. -/
-theorem life_append_crash_recoverable (V : Bytes → Prop) (m : Dir) (a : Str) (s : Sched)
-    (hdied : (appendTo m a s).st = .died) (hV0 : V ((m a).getD [])) :
-    (V (((appendTo m a s).dir a).getD []) ∨
-      ∃ j, (appendTo m a s).dir (journalOf a) = some j ∧ journalOffset? j = some ((m a).getD []).length ∧
-        (((appendTo m a s).dir a).getD []).take ((m a).getD []).length = (m a).getD [] ∧
-        V ((((appendTo m a s).dir a).getD []).take ((m a).getD []).length)) ∧
-    ∀ x, x ≠ a → x ≠ journalOf a → (appendTo m a s).dir x = m x := by
-  refine ⟨?_, fun x h1 h2 => appendTo_frame m a s x h1 h2⟩
-  have hst : (writeRecord ⟨m a, m (journalOf a)⟩ s).st = some .died := by
-    have : (writeRecord ⟨m a, m (journalOf a)⟩ s).status = .died := hdied
+theorem life_append_crash_recoverable (V : Bytes → Prop) (m : Dir) (a : Str) (s : Sched) (e : IOErr)
+    (hdied : (appendTo m a s e).st = .died) (hV0 : V ((m a).getD [])) :
+    (V (((appendTo m a s e).dir a).getD []) ∨
+      ∃ j, (appendTo m a s e).dir (journalOf a) = some j ∧ journalOffset? j = some ((m a).getD []).length ∧
+        (((appendTo m a s e).dir a).getD []).take ((m a).getD []).length = (m a).getD [] ∧
+        V ((((appendTo m a s e).dir a).getD []).take ((m a).getD []).length)) ∧
+    ∀ x, x ≠ a → x ≠ journalOf a → (appendTo m a s e).dir x = m x := by
+  refine ⟨?_, fun x h1 h2 => appendTo_frame m a s e x h1 h2⟩
+  have hst : (writeRecordE e ⟨m a, m (journalOf a)⟩ s).st = some .died := by
+    have : (writeRecordE e ⟨m a, m (journalOf a)⟩ s).status = .died := hdied
     unfold Ph.status at this
-    cases hq : (writeRecord ⟨m a, m (journalOf a)⟩ s).st with
+    cases hq : (writeRecordE e ⟨m a, m (journalOf a)⟩ s).st with
     | none => simp [hq] at this
     | some q => simp [hq] at this; rw [this]
-  have := crash_recoverable V ⟨m a, m (journalOf a)⟩ s hst hV0
+  have := crash_recoverable_any_exception V e ⟨m a, m (journalOf a)⟩ s hst hV0
   rw [appendTo_archive, appendTo_journal]
   exact this
 
@@ -885,17 +1020,17 @@ through, the step IS an append to the EMPTY file: the "bytes before the attempt"
 the empty file, not the left-over contents. -/
 theorem nonappending_start_is_append_to_empty (m : Dir) (st : Step) (hk : st.kind = .startTrunc)
     (h1 : st.topen = .ok) (h2 : st.tclose = .ok) :
-    (runStep m st).dir = (appendTo (m.set st.target (some [])) st.target st.sched).dir ∧
-    (runStep m st).st = (appendTo (m.set st.target (some [])) st.target st.sched).st ∧
+    (runStep m st).dir = (appendTo (m.set st.target (some [])) st.target st.sched st.err).dir ∧
+    (runStep m st).st = (appendTo (m.set st.target (some [])) st.target st.sched st.err).st ∧
     (runStep m st).tr = [(st.target, .topen, .ok), (st.target, .tclose, .ok)] ++
-      (appendTo (m.set st.target (some [])) st.target st.sched).tr := by
+      (appendTo (m.set st.target (some [])) st.target st.sched st.err).tr := by
   simp [runStep, hk, truncateFile, h1, h2]
 
 /-- … so after an OSError in that first append (roll-back primitives and removals not failing, no journal
 of that archive before) the archive is EMPTY and has no journal, whatever was left over before … -/
 theorem nonappending_start_fault_restores_empty (m : Dir) (st : Step) (hk : st.kind = .startTrunc)
     (h1 : st.topen = .ok) (h2 : st.tclose = .ok) (hj : m (journalOf st.target) = none)
-    (hraised : (runStep m st).st = .raised)
+    (he : st.err.isOSError = true) (hraised : (runStep m st).st = .raised)
     (ho : st.sched.ropen.isFail = false) (ht : st.sched.rtrunc.isFail = false)
     (hu : st.sched.unlink.isFail = false) (hju : st.sched.junlink.isFail = false) :
     ((runStep m st).dir st.target).getD [] = [] ∧ (runStep m st).dir (journalOf st.target) = none := by
@@ -905,7 +1040,8 @@ theorem nonappending_start_fault_restores_empty (m : Dir) (st : Step) (hk : st.k
   have hne : journalOf st.target ≠ st.target := journalOf_ne _
   have hj' : (m.set st.target (some [])) (journalOf st.target) = none := by simp [Dir.set, hne, hj]
   have ha' : (m.set st.target (some [])) st.target = some [] := by simp [Dir.set]
-  have := fault_restores ⟨(m.set st.target (some [])) st.target, (m.set st.target (some [])) (journalOf st.target)⟩
+  have := fault_restores_any_class st.err he
+    ⟨(m.set st.target (some [])) st.target, (m.set st.target (some [])) (journalOf st.target)⟩
     st.sched hj' hraised ho ht hu hju
   simpa [FS.bytes, ha'] using this
 
@@ -928,20 +1064,20 @@ theorem nonappending_start_crash (m : Dir) (st : Step) (hk : st.kind = .startTru
       rw [hd, appendTo_archive, appendTo_journal]
       rw [hs] at hdied
       have ha' : (m.set st.target (some [])) st.target = some [] := by simp [Dir.set]
-      have hst : (writeRecord ⟨(m.set st.target (some [])) st.target,
+      have hst : (writeRecordE st.err ⟨(m.set st.target (some [])) st.target,
           (m.set st.target (some [])) (journalOf st.target)⟩ st.sched).st = some .died := by
-        have : (writeRecord ⟨(m.set st.target (some [])) st.target,
+        have : (writeRecordE st.err ⟨(m.set st.target (some [])) st.target,
           (m.set st.target (some [])) (journalOf st.target)⟩ st.sched).status = .died := hdied
         unfold Ph.status at this
-        cases hq : (writeRecord ⟨(m.set st.target (some [])) st.target,
+        cases hq : (writeRecordE st.err ⟨(m.set st.target (some [])) st.target,
           (m.set st.target (some [])) (journalOf st.target)⟩ st.sched).st with
         | none => simp [hq] at this
         | some q => simp [hq] at this; rw [this]
-      by_cases hchg : (writeRecord ⟨(m.set st.target (some [])) st.target,
+      by_cases hchg : (writeRecordE st.err ⟨(m.set st.target (some [])) st.target,
           (m.set st.target (some [])) (journalOf st.target)⟩ st.sched).fs.archive = some []
       · right; left; exact hchg
       · right; right
-        have := journal_before_archive_open _ st.sched hst (by rw [ha'] at *; exact hchg)
+        have := journal_before_archive_open_any_exception st.err _ st.sched hst (by rw [ha'] at *; exact hchg)
         simpa [FS.bytes, ha'] using this
 
 theorem runStep_frame (m : Dir) (st : Step) (x : Str) (h1 : x ≠ st.target) (h2 : x ≠ journalOf st.target) :
@@ -951,10 +1087,10 @@ theorem runStep_frame (m : Dir) (st : Step) (x : Str) (h1 : x ≠ st.target) (h2
   | startTrunc =>
     simp only
     split
-    · simp only; rw [appendTo_frame _ _ _ _ h1 h2, truncateFile_frame _ _ _ _ _ h1]
+    · simp only; rw [appendTo_frame _ _ _ _ _ h1 h2, truncateFile_frame _ _ _ _ _ h1]
     · exact truncateFile_frame _ _ _ _ _ h1
-  | startKeep => exact appendTo_frame _ _ _ _ h1 h2
-  | append => exact appendTo_frame _ _ _ _ h1 h2
+  | startKeep => exact appendTo_frame _ _ _ _ _ h1 h2
+  | append => exact appendTo_frame _ _ _ _ _ h1 h2
 
 /-- over a whole life (any steps, any schedules): a file that is neither the archive a step is aimed at
 nor that archive's journal is never touched — in particular no append to one archive ever creates, alters
